@@ -217,7 +217,12 @@ static void flush_result_report(void) {
     }
 }
 
-extern void __gcov_dump(void) __attribute__((weak));
+#ifdef SCHED_GCOV                       /* --coverage builds: _exit skips the atexit flush of the counters */
+extern void __gcov_dump(void);
+#define SCHED_GCOV_DUMP() __gcov_dump()
+#else
+#define SCHED_GCOV_DUMP() ((void)0)
+#endif
 
 static void die(int verdict, const char *fmt, ...) __attribute__((noreturn, format(printf, 2, 3)));
 static void die(int verdict, const char *fmt, ...) {
@@ -234,7 +239,7 @@ static void die(int verdict, const char *fmt, ...) {
     flush_result_report();
     report("V %s %s\n", sched_verdict_name(verdict), msg);
     fflush(NULL);
-    if (__gcov_dump) __gcov_dump();          /* --coverage builds: _exit skips the atexit flush */
+    SCHED_GCOV_DUMP();
     _exit(xcfg.report_fd >= 0 ? 0 : 40 + verdict);
 }
 
